@@ -65,3 +65,8 @@ claim("C10", "DESIGN.md 5 C10",
       "Payloader side: every sequence of 1-3 (thorough: 4) NAL units (type, NRI, size relative to the MTU, 3/4-byte start code) over 9 MTUs x StapA on/off x AVC on/off x every position of the call boundary is packetized by the real H264Payloader; the payloads are parsed and reassembled by an independent RFC 6184 reference (single / STAP-A / FU-A with S,E,NRI,type, >= 2 fragments, <= MTU), compared with the input units, IsPartitionHead is checked on every payload, and the payloads are fed to one H264Packet whose concatenated output must equal the Annex-B/AVC framing of the units. Decoder side: every arrangement of up to 3 groups (single, STAP-A of 1-3 units, FU-A train with every set of 1-3 split points) from the reference encoder is decoded by H264Packet.",
       "Two listed known findings (parameter-set hold-back anomalies, STAP-A over MTU dropped) are matched by an exact model of the hold-back state machine; any other difference is reported. Alphabets in the evidence assumptions.",
       "bounded exhaustive enumeration of unit sequences and payload arrangements against an independent RFC 6184 reference packetizer/reassembler (explicit choice-tree DFS on the real code)")
+
+claim("C11", "DESIGN.md 5 C11",
+      "Payloader: one VP8Payloader instance per (MTU, picture ids on/off, length-cycle offset) is driven through 32768+130 frames, i.e. EVERY picture id incl. the 127/128 form switch and the 15-bit wrap, every id meeting every frame-length class relative to the MTU; every packet is decoded by VP8Packet and checked (concatenation = frame, S / IsPartitionHead on the first packet only, partition index 0, I=1 with the expected running id in the right 7/15-bit form, <= MTU). Decoder: descriptors from an independent RFC 7741 encoder: ALL 256 first octets x ALL 256 extension octets x field values x 0/1/3 payload bytes, plus complete sweeps of all picture ids, TL0PICIDX and TID/Y/KEYIDX octets, each with EVERY truncation (cut inside the descriptor rejected, cut after it = empty payload), decoded into a receiver pre-loaded with other values.",
+      "Field alphabets of the flag product in the evidence assumptions.",
+      "bounded exhaustive enumeration (complete for picture ids and flag octets) against an independent RFC 7741 descriptor encoder (explicit choice-tree DFS on the real code)")
